@@ -426,28 +426,41 @@ func render(forest []*Node) Shape {
 	return sh
 }
 
-// enumerateShapes calls f for each decorated shape with at most maxNodes nodes containing at
-// least one meta field; smaller shapes first.
-func enumerateShapes(maxNodes int, dirs []string, f func(Shape) bool) (skeletons int) {
+// shapeSkeletons returns, in a fixed order (smaller first), every undecorated forest with at
+// most maxNodes nodes that contains a meta field.
+func shapeSkeletons(maxNodes int) [][]*Node {
+	var out [][]*Node
 	for n := 2; n <= maxNodes; n++ {
 		for _, fw := range rootForests(n, 0) {
-			if !hasMeta(fw.nodes) {
-				continue
-			}
-			skeletons++
-			stop := false
-			decorate(fw.nodes, dirs, func() {
-				if stop {
-					return
-				}
-				if !f(render(fw.nodes)) {
-					stop = true
-				}
-			})
-			if stop {
-				return
+			if hasMeta(fw.nodes) {
+				out = append(out, fw.nodes)
 			}
 		}
 	}
-	return
+	return out
+}
+
+// enumerateShapes walks every decoration of every skeleton in a fixed order and calls f with
+// the shape's index and a function that renders it. Walking is cheap (no rendering), so
+// parallel workers each walk the whole space and render only the indices they own. The
+// skeletons are cloned before they are decorated, so they can be shared. f returns false to stop.
+func enumerateShapes(skeletons [][]*Node, dirs []string, f func(idx int, render func() Shape) bool) (total int) {
+	idx := 0
+	stop := false
+	for _, sk := range skeletons {
+		forest := cloneForest(sk)
+		decorate(forest, dirs, func() {
+			if stop {
+				return
+			}
+			if !f(idx, func() Shape { return render(forest) }) {
+				stop = true
+			}
+			idx++
+		})
+		if stop {
+			break
+		}
+	}
+	return idx
 }
